@@ -87,7 +87,10 @@ IdKey(r, tok)    == [ts |-> tok.ts, sfx |-> EffSfx(r, tok), d15 |-> tok.shape = 
 
 (* "tmux or Windows unique id": role suffix 10 / 20 on a 13+ digit id, or any 13+ digit id    *)
 (* when the wrapper itself runs in a Windows environment (the console redraws).               *)
-Dedupable(r, w, tok) == LET sh == EffShape(r, tok) IN sh \in {"s10", "s20", "d15"} \/ (sh = "s00" /\ w)
+(* "p11": the 10-12 digit ids other trz / tsz implementations print inside tmux and on Windows *)
+(* (milliseconds modulo 10^11, no role suffix): longer than six digits, so a redraw repeating  *)
+(* one is a repeat like the others.                                                           *)
+Dedupable(r, w, tok) == LET sh == EffShape(r, tok) IN sh \in {"s10", "s20", "d15", "p11"} \/ (sh = "s00" /\ w)
 
 InMem(m, key) == \E i \in 1..Len(m) : m[i] = key
 
